@@ -22,7 +22,8 @@ RULE = ('fault enumeration: write sequences of <=12 writes over <=4 files x maxH
         'permanent failure of each path; random sequences over up to 200 files with maxHandles 1..64, pruneEvery 1..50 and random fault plans; '
         'a real RLIMIT_NOFILE=40 run of HandleLimiter and FastqHandle(single_cell) in a subprocess; bamSplitByTag with -max_handles 1..5 '
         '(conservation only). A case is non-trivial when at least one injected fault fired or a handle was pruned and re-opened for append; '
-        'distinct = distinct (sequence, settings, fault plan).')
+        'distinct = distinct (sequence, settings, fault plan).'
+        ' Plus stale files of an earlier run (half of them written by an earlier HandleLimiter of the same process) and open failures reported as EMFILE / ENFILE / EIO / EINTR / ENOMEM / EAGAIN / EACCES / ENOSPC / without errno.')
 ASSUMPTIONS = ['faults are injected at the open() boundary of the handlelimiter module only; write()/close() of an open handle do not fail',
                'a write() may raise only if an open failed while no other handle of the limiter was live; data of such a write may be absent',
                'gzip and the file system are trusted']
